@@ -47,11 +47,11 @@ def install():
     BatteryDistributionAlgorithm._distribute_multi_inverter_pairs = wrapper
 
 
-def make(shape, exponent, sign, boundary=None, reach=False, wide_battery=False):
+def make(shape, exponent, sign, boundary=None, reach=False, wide_battery=False, soc_pattern=None):
     shape = tuple(tuple(s) for s in shape)
 
     def fn(ex):
-        pairs, groups = dist.build(ex, shape, wide_battery=wide_battery)
+        pairs, groups = dist.build(ex, shape, wide_battery=wide_battery, soc_pattern=soc_pattern)
         P, dirs = dist.request(ex, groups, sign)
         mag = E(P) * sign
         if boundary == "excl":
